@@ -266,6 +266,11 @@ def catalog():
                                {"script": [["tag"]]}, [["sleep", 0.25], ["cancel", "f1"]])
     out["cancel-fn/poll"] = prog([{"kind": "poll", "interval": 0.25, "per_sub": {"f0.fn": {"after": 3}}, "cancel": [["raise", "Fault"]]}], {"script": [["tag"]]},
                                  [["sleep", 0.25], ["cancel", "f0"]])
+    # a raising cancel function whose argument (the callable's result) cannot even be printed: cancel() is vetoed, nothing
+    # escapes from it - neither into the user's thread nor into the timeout thread that issues the cancel
+    unprintable = {"kind": "poll", "interval": 0.25, "per_sub": {"f0.fn": {"after": None}}, "cancel": [["raise", "Fault"]]}
+    out["cancel-fn+unprintable-result/poll"] = prog([unprintable], {"script": [["badstr"]]}, [["sleep", 0.5], ["cancel", "f0"]])
+    out["cancel-fn+unprintable-result/poll+timeout"] = prog([unprintable, {"kind": "timeout", "t": 0.5}], {"script": [["badstr"]]})
     out["count/throttle"] = prog([{"kind": "throttle", "count": {"script": [["ret", 1], ["ret", 1], ["raise", "Fault"], ["raise", "Fault"], ["ret", 1]]}}], {"script": [["vsleep", 0.25, ["tag"]]]})
     return out
 
